@@ -179,6 +179,8 @@ type world struct {
 	depB     *deploy // second request host for dynamic issuer strategies
 	omni     *vclient.Client
 	pub      *vclient.Client
+	post     *vclient.Client // confidential client registered for client_secret_post
+	pkjwt    *vclient.Client // confidential client registered for private_key_jwt (no secret), key opdrv.ClientKey(pkjwtID)
 	sigAlg   jose.SignatureAlgorithm
 	extra    map[string]bool // BackChannelLogout flags etc. (echoed only)
 }
@@ -267,6 +269,9 @@ const (
 	omniRedirect = "https://omni.example/cb"
 	omniLogout   = "https://omni.example/logged-out"
 	pubRedirect  = "com.example.pub:/cb"
+
+	postID, postRedirect   = "c19-post", "https://post.example/cb"
+	pkjwtID, pkjwtRedirect = "c19-pkjwt", "https://pkjwt.example/cb"
 )
 
 var allGrants = []oidc.GrantType{oidc.GrantTypeCode, oidc.GrantTypeImplicit, oidc.GrantTypeRefreshToken, oidc.GrantTypeClientCredentials,
@@ -293,6 +298,16 @@ func buildWorld(c cfgCase, r *rand.Rand) (*world, error, *mon.PanicInfo) {
 	w.pub = vclient.Public("pub", pubRedirect)
 	w.pub.TokenType = w.omni.TokenType
 	w.st.AddClient(w.pub)
+	// one client per token-endpoint authentication method a provider can advertise (none = pub, client_secret_basic = omni)
+	w.post = vclient.Confidential(postID, "secret-c19-post", postRedirect)
+	w.post.Auth = oidc.AuthMethodPost
+	w.post.TokenType = w.omni.TokenType
+	w.st.AddClient(w.post)
+	w.pkjwt = vclient.Confidential(pkjwtID, "", pkjwtRedirect)
+	w.pkjwt.Auth = oidc.AuthMethodPrivateKeyJWT
+	w.pkjwt.TokenType = w.omni.TokenType
+	w.st.AddClient(w.pkjwt)
+	w.st.AddClientKey(pkjwtID, opdrv.ClientKey(pkjwtID))
 
 	cfg := opdrv.DefaultConfig()
 	cfg.CodeMethodS256, cfg.AuthMethodPost, cfg.AuthMethodPrivateKeyJWT, cfg.GrantTypeRefreshToken, cfg.RequestObjectSupported =
